@@ -17,13 +17,15 @@ FAMILY = {"number": "FormatNums", "date": "FormatDateTime", "time": "FormatDateT
 def mk_project(rng):
     locales = rng.sample(["en", "fr", "de", "ja"], rng.range(1, 3))
     default = locales[0]
-    namespaces = rng.pick([None, None, ["common", "home"]])
-    uses = rng.sample(list(FAMILY), rng.range(0, 3))
+    namespaces = rng.pick([None, None, ["common", "home"], rng.shuffle(rng.sample(["account", "common", "home", "legal", "shop"], rng.range(2, 4)))])
+    # up to every family at once (the five options), spread over the namespaces
+    uses = rng.sample(list(FAMILY), rng.weighted([(3, 0), (5, 1), (5, 2), (4, 3), (3, 4), (3, 5), (3, 6), (4, 7)]))
     files = {}
     expected = set()
     placements = []
     trees = {(ns, l): {"top": [("plain", "text"), ("hello", "hi {{ name }}")], "grp": [("leaf", "x")]} for ns in (namespaces or [None]) for l in locales}
     styles = {u: rng.below(3) for u in uses}
+    mix_range = rng.chance(1, 6)
     for u in uses:
         ns = rng.pick(namespaces) if namespaces else None
         where = rng.pick(["default", "other-locale", "subkey", "via-fk", "both"])
@@ -56,6 +58,9 @@ def mk_project(rng):
                 # the key must exist in the default locale: a plain string there when the usage lives elsewhere
                 if l == default:
                     tgt += [(key, "plain in default")]
+                elif u == "plural" and where == "default" and mix_range:
+                    # the same key counted by a *range* in a later locale: the documented answer is the error RangeAndPluralsMix
+                    tgt += [(key, proj.A([proj.A(["none", proj.U(0)]), proj.A(["some {{ count }}"])]))]
             if where == "via-fk" and l in tlocs:
                 path = ((ns + ":") if ns else "") + key
                 t["top"] += [(f"ref_{u}", f"$t({path})")]
